@@ -25,11 +25,27 @@ MANIFEST = {
             "check_solution pipeline) tied to the code by generated tables and differential correspondence (stack, alt stack, "
             "op count, code-separator position, errno). Theorems C03M_*: the conditional counters abstract Core's vfExec for every "
             "op sequence; IntStreamer = CScriptNum, bool_from_script_bytes = CastToBool; get_opcode = GetScriptOp + CheckMinimalPush for "
-            "every script and pc; check_valid_signature = IsValidSignatureEncoding, hash-type and public-key encoding checks = Core's predicates;  for every opcode outside the CHECKSIG family and every state, eval_instruction = one iteration of "
-            "Core's loop (handlers taken from the generated INSTRUCTION_LOOKUP); eval_script = EvalScript (verdict and final stack) "
-            "for every script without CHECKSIG-family instructions, by induction on the loop.",
-    "note": "Signature verification proper and the hash functions are parameters of the model (sig-oracle table computed "
-            "by the real pycoin sighash + ECDSA on the Python side).",
+            "every script and pc; check_valid_signature = IsValidSignatureEncoding, hash-type and public-key encoding checks = Core's "
+            "predicates; sigdecode_der_lax = ecdsa_signature_parse_der_lax on every byte string; parse_and_check_signature_blob = "
+            "CheckSignatureEncoding for every blob and flag set (DERSIG/LOW_S/STRICTENC); checksigs (pops keys and signatures from the "
+            "end) = Core's CHECKMULTISIG matching loop for all signature and key lists with #sigs <= #keys, by induction on both lists; "
+            "the four handlers CHECKSIG/CHECKSIGVERIFY/CHECKMULTISIG/CHECKMULTISIGVERIFY = Core's arms for every state (stack depth, "
+            "4-byte minimal counts, ranges, NULLDUMMY, NULLFAIL, VERIFY suffix, op-count contribution of the key count); "
+            "_delete_signature (bottom-most signature first) = FindAndDelete (top-most first) on EVERY script code, undecodable "
+            "tail included (C03M_sigdel_eq, since the repair of delete_subscript); eval_instruction = one iteration of Core's loop for every state and ALL 256 opcode values "
+            "(C03M_step_eq); eval_script = EvalScript (verdict and final stack) for EVERY script, decodable or not, every initial stack "
+            "of items within 520 bytes, every flag set, both signature versions (C03M_eval_eq; C03M_eval_unwalkable: a script with an "
+            "undecodable instruction fails on both sides); check_solution = VerifyScript for every scriptSig, scriptPubKey, witness, flag "
+            "set and tx context with no hypothesis but ChkWF (C03M_verify_eq: SIGPUSHONLY, stack copy, P2SH, witness v0 20/32-byte rules, "
+            "P2WPKH script, 520-byte items, malleation rules, upgradable versions, CLEANSTACK, WITNESS_UNEXPECTED; the "
+            "MINIMALIF/WITNESS_PUBKEYTYPE-only-in-witness hypothesis is discharged from how check_solution builds its VMs).",
+    "note": "Signature verification proper and the hash functions are parameters shared by model and spec (sig-oracle table computed "
+            "by the real pycoin sighash + ECDSA on the Python side). The theorems ask of the checker only ChkWF (an empty signature, a "
+            "signature the lax DER parser rejects, a key whose length does not fit its first byte never verify: the early exits of "
+            "Core's CheckSig, proved for Spec/Secp256k1.checkSigWith in C03M_chk_wf_core; C03M_chk_wf_needed shows it is needed). "
+            "C03M_eval_eq asks for initial stack items within 520 bytes (compile_push_data of a >= 4 GiB signature raises struct.error, "
+            "which Core has no counterpart for; every stack check_solution builds satisfies it). "
+            "C03M_step_eq_partial / C03M_eval_eq_partial (CHECKSIG family excluded) are kept as they were.",
     "technique": "Lean 4 proof over an executable model + differential correspondence model vs implementation",
 }
 RULE = ("ops vm_eval/vm_verify (+ unit ops vm_num_*, vm_getop, vm_cond, vm_der, vm_sigenc, ...); per-opcode x operand-class x "
